@@ -24,7 +24,7 @@ MODULE = "modem/Ofdm.tla"
 DEVS = ["FreqResponseTruncates", "DcNotSkipped", "MapOffByOne", "CpFromHead", "ScaleNotInverted", "SymbolsFloor",
         "MemoryExceedsCp", "MemoNumbersByUsedOnly", "RejectedSetHalfUpdates", "PadKeepsOldData", "DemodScalesArgument",
         "ScaleWrapsNarrowInt", "EqSkipsTinyResponse"]
-INVS = ["ObjectCoherent", "ArgumentsUnchanged", "EarlierResultsUnchanged", "ScaleLaw", "IndexMap", "ParamLaw", "PadLaw", "LenLaw", "PrefixIsTail", "DcAndGuardsEmpty", "CircularUnderCP",
+INVS = ["ObjectCoherent", "ArgumentsUnchanged", "EarlierResultsUnchanged", "ScaleLaw", "DiscLaw", "IndexMap", "ParamLaw", "PadLaw", "LenLaw", "PrefixIsTail", "DcAndGuardsEmpty", "CircularUnderCP",
         "WindowAligned", "UnmapReadsMap", "FreqIsHTimesX", "RoundTrip", "OneTapExact"]
 # which laws refute which deviation (TLC stops at the first violated invariant of the list it finds)
 DEV_REFUTED_BY = {
@@ -54,8 +54,10 @@ HIST_DEVS = {"MemoNumbersByUsedOnly", "RejectedSetHalfUpdates", "PadKeepsOldData
 # the quick history alphabet: the same used count under the all-carriers branch and under the centred branch at two fft
 # sizes (both orders occur), a change of every parameter, the smallest size; rejected calls: odd used, used > fft (both
 # with a valid <<fft, cp>> that differs from most current ones), cp > fft, used = 0
-HIST_VALID = [(4, 1, 4), (8, 2, 4), (8, 3, 8), (4, 0, 2), (2, 2, 2)]
-HIST_BAD = [(8, 1, 3), (4, 2, 6), (8, 9, 4), (2, 1, 0)]
+# used = -1 stands for the TWO-argument call form OFDM(N, cp) / set_parameters(N, cp) (used defaults to fft; odd fft rejected)
+HIST_VALID = [(4, 1, 4), (8, 2, 4), (8, 3, -1), (4, 0, 2), (2, 2, 2)]
+HIST_BAD = [(8, 1, 3), (4, 2, 6), (3, 1, -1), (2, 1, 0)]
+ROUTES = ["arrays", "profile", "discrete"]
 ACTIONS = ["ScaleStar", "Construct", "SetParameters", "UseLive", "StartLive", "Start", "MapStar", "ParamStar", "Pad", "Map", "Ifft", "AddCP", "Loop", "Transmit", "Crop", "RemoveCP",
            "Fft", "Unmap", "Equalize"]
 TOL = 1e-9
@@ -66,12 +68,12 @@ FID = "FreqResponseTruncates"
 
 def model(configs=(), mapffts=(), paramffts=(), lenmode="two", patmode="dense", ndense=1, laymode="three",
           block=False, seed=0, dev=(), emit=True, histvalid=(), histbad=(), histmax=0, histfirst=None, usemax=1,
-          ptypes=("int",), scalecases=(), gains=(0,)):
+          ptypes=("int",), scalecases=(), gains=(0,), routes=("int",)):
     d = {k: (k in dev) for k in DEVS}
     st = lambda xs: tlc.tla(set(xs)) if xs else "{}"
     defs = {"Configs": st([tuple(c) for c in configs]), "MapFfts": st(mapffts), "ParamFfts": st(paramffts),
             "HistFirst": st([tuple(c) for c in (histvalid if histfirst is None else histfirst)]),
-            "CallTypes": tlc.tla(list(JUDGED_PTYPES)), "PTypes": st(list(ptypes)), "ScaleCases": st([tuple(c) for c in scalecases]), "Gains": st(list(gains)),
+            "CallTypes": tlc.tla(list(JUDGED_PTYPES)), "PTypes": st(list(ptypes)), "ScaleCases": st([tuple(c) for c in scalecases]), "Gains": st(list(gains)), "Routes": st(list(routes)),
             "HistValid": st([tuple(c) for c in histvalid]), "HistBad": st([tuple(c) for c in histbad]), "Dev": tlc.tla(d)}
     cfg = tlc.cfg_text(constants={"LenMode": tlc.tla(lenmode), "PatMode": tlc.tla(patmode), "NDense": str(ndense),
                                   "LayMode": tlc.tla(laymode), "Block": tlc.tla(bool(block)), "Seed": str(seed % 1000),
@@ -87,6 +89,8 @@ _ROOTS = {}
 def cyc(a):
     """array of Cyc2 coordinate vectors (..., M/2) -> complex array (...): sum_j c_j exp(2 pi i j / M)"""
     a = np.asarray(a, dtype=float)
+    if a.size == 0:
+        return np.zeros(a.shape[:-1] if a.ndim > 1 else (0,), dtype=complex)
     h = a.shape[-1]
     if h not in _ROOTS:
         _ROOTS[h] = np.exp(2j * np.pi * np.arange(h) / (2 * h))
@@ -154,16 +158,32 @@ def make_generator(values, block_len, block):
     return TableGenerator()
 
 
-def make_channel(taps, block_len, block, vals=None):
-    """taps: [[delay, [re, im]], ...] as emitted; `vals` overrides the tap values (random extension)"""
+def make_channel(taps, block_len, block, vals=None, route="int", raw=()):
+    """taps: [[delay, [re, im]], ...] as emitted; `vals` overrides the tap values (gain / random extension).
+    route "int": TdlChannel(gen, tap_powers_dB=, tap_delays=<integers>, Ts=1).  Other routes give the RAW profile (`raw`:
+    delays in quarter samples, one raw tap more than discretised taps: two of them merge) with a sampling interval
+    Ts # 1, as arrays, as a `channel_profile=` object, or as an already discretised profile object."""
     from pyphysim.channels import fading
-    delays = np.array([t[0] for t in taps], dtype=float)
     vals = gint([t[1] for t in taps]) if vals is None else np.asarray(vals, dtype=complex)
     gen = make_generator(vals, block_len, block)
-    powers_db = -3.0 * np.arange(len(taps))
-    ch = fading.TdlChannel(gen, tap_powers_dB=powers_db, tap_delays=delays, Ts=1.0)
+    if route == "int":
+        delays = np.array([t[0] for t in taps], dtype=float)
+        ch = fading.TdlChannel(gen, tap_powers_dB=-3.0 * np.arange(len(taps)), tap_delays=delays, Ts=1.0)
+    else:
+        ts = [1e-6, 3.25e-8, 0.5][len(raw) % 3]
+        rdel = np.array(raw, dtype=float) / 4.0 * ts
+        rdb = -2.0 * np.arange(len(raw))
+        if route == "arrays":
+            ch = fading.TdlChannel(gen, tap_powers_dB=rdb, tap_delays=rdel, Ts=ts)
+        elif route == "profile":
+            ch = fading.TdlChannel(gen, channel_profile=fading.TdlChannelProfile(rdb, rdel), Ts=ts)
+        else:
+            ch = fading.TdlChannel(gen, channel_profile=fading.TdlChannelProfile(rdb, rdel).get_discretize_profile(ts))
+        if ch.num_taps != len(taps):
+            raise Bad(f"DiscLaw: the channel built from the raw profile {list(raw)} (quarter samples) has {ch.num_taps} taps, "
+                      f"specified {len(taps)} at delays {[t[0] for t in taps]}")
     gen.gain = 1.0 / np.sqrt(np.asarray(ch.channel_profile.tap_powers_linear, dtype=float))
-    return ch, vals, delays.astype(int)
+    return ch, vals, np.array([t[0] for t in taps], dtype=int)
 
 
 # ------------------------------------------------------------------ replay of one chain on the real classes
@@ -188,6 +208,8 @@ class Ledger:
 
     def __init__(self):
         self.items = []
+        self.eqz = None       # live history: the equaliser object created right after the constructor call
+        self.chans = None     # live history: channel objects kept from one use to the next
 
     def keep(self, label, res):
         self.items.append((label, res, np.array(res, copy=True)))
@@ -256,14 +278,21 @@ def run_modulator(m, o=None, ledger=None):
     ns = m["pad"]["out"]["ns"]
     grid = gint(m["map"]["out"]["grid"])
     prep = getattr(o, "_prepare_input_signal", None)  # private: cross-check only, skipped when absent
+    if ns == 0:
+        grid = np.zeros((0, N), dtype=complex)      # the empty input: zero OFDM symbols
     if prep is not None:
         g = np.asarray(prep(x.copy()))
         if not close(g, grid):
             raise Bad("Pad/Map: _prepare_input_signal differs from the specified grid (zero padding / bin of each element)")
-    tx = call("modulate", o.modulate, [x.copy()], m["cp"].get("req", ()), ledger)
+    xa = x.copy()
+    if x.size and not np.any(x.imag):     # real-valued symbols: hand them over as an integer / float array (all dtypes accepted)
+        xa = x.real.astype([np.int64, np.float64, np.int8][(N + cp + L) % 3])
+    tx = call("modulate", o.modulate, [xa], m["cp"].get("req", ()), ledger)
     want_len = len(m["cp"]["out"]["txi"])
     if tx.shape != (want_len,):
         raise Bad(f"Len: modulate returned {tx.shape} samples, specified {want_len} = {ns} symbols x (fft+cp)")
+    if ns == 0:
+        return o, tx, x                            # nothing emitted; the receiver must return nothing as well
     if exact:
         body = cyc(m["ifft"]["out"]["body"]) * scale_of(m["ifft"])
         txe = cyc(m["cp"]["out"]["tx"]) * scale_of(m["cp"])
@@ -303,7 +332,15 @@ def run_receiver(o, tx, m, d, known, ledger=None):
             raise Bad("RoundTrip: demodulated values differ from the specified ones")
         return
     gain = 10.0 ** ch.get("g", 0)       # every static realisation: the same layout at any overall gain
-    chan, vals, delays = make_channel(ch["taps"], N + cp, ch["block"], gint([t[1] for t in ch["taps"]]) * gain)
+    ckey = tlc.json.dumps([ch, N + cp], sort_keys=True)
+    cache = getattr(ledger, "chans", None)
+    if cache is not None and ckey in cache and not ch["block"]:
+        chan, vals, delays = cache[ckey]      # a live history: the next frame goes through the SAME (time-invariant) channel object
+    else:
+        chan, vals, delays = make_channel(ch["taps"], N + cp, ch["block"], gint([t[1] for t in ch["taps"]]) * gain,
+                                          ch.get("route", "int"), ch.get("raw", ()))
+        if cache is not None:
+            cache[ckey] = (chan, vals, delays)
     rxfull = call("corrupt_data", chan.corrupt_data, [tx.copy()], d["chan"].get("req", ()), ledger)
     mem = d["chan"]["out"]["mem"]
     if rxfull.shape != (n + mem,):
@@ -339,7 +376,7 @@ def run_receiver(o, tx, m, d, known, ledger=None):
         raise Bad("RemoveCP/Fft/Unmap: demodulated values differ from the specified ones")
     if "eq" not in d:
         return
-    eqz = OfdmOneTapEqualizer(o)
+    eqz = getattr(ledger, "eqz", None) or OfdmOneTapEqualizer(o)   # a live history keeps ONE equaliser object
     eq = call("equalize_data", eqz.equalize_data, [dem.copy(), ir], d["eq"].get("req", ()), ledger)
     if not close(eq, gint(d["eq"]["out"]["exp"])):
         if d["eq"]["out"]["corner"] and gain == 1.0:
@@ -357,6 +394,38 @@ def run_receiver(o, tx, m, d, known, ledger=None):
                 return
         raise Bad("OneTapExact: equalised symbols are not the transmitted symbols followed by zeros"
                   + (f" (channel gain 1e{ch.get('g', 0)})" if gain != 1.0 else ""))
+
+
+LIB_SKIPPED = [0, 0]
+
+
+def run_library_channel(o, m, d, ch, tx, want, rng):
+    """(rel) the raw profile through a STATIC channel of the library itself: JakesSampleGenerator with zero Doppler.  The
+    realisation is whatever the generator draws; runs whose response on a used bin is more than 60 dB below the strongest
+    are skipped (ill conditioned), not failed."""
+    from pyphysim.channels import fading, fading_generators
+    from pyphysim.modulators.ofdm import OfdmOneTapEqualizer
+    N, cp, u, L, _ = m["input"]["id"]
+    ts = [1e-6, 3.25e-8, 0.5][len(ch["raw"]) % 3]
+    jakes = fading_generators.JakesSampleGenerator(Fd=0.0, Ts=ts, L=8, RS=np.random.RandomState(rng.randint(2 ** 31 - 1)))
+    chan = fading.TdlChannel(jakes, tap_powers_dB=-2.0 * np.arange(len(ch["raw"])), tap_delays=np.array(ch["raw"]) / 4.0 * ts)
+    rx = np.asarray(chan.corrupt_data(tx.copy()))
+    ir = chan.get_last_impulse_response()
+    if [int(t) for t in ir.tap_indexes_sparse] != [t[0] for t in ch["taps"]]:
+        raise Bad(f"DiscLaw (library generator): discretised delays {list(ir.tap_indexes_sparse)}, specified {[t[0] for t in ch['taps']]}")
+    if rx.shape != (len(tx) + ch["taps"][-1][0],):
+        raise Bad("Channel (library generator): output length is not input + discretised memory")
+    tv = np.asarray(ir.tap_values_sparse)
+    if np.abs(tv - tv[:, :1]).max() > 1e-12:
+        raise Bad("Channel (library generator): zero Doppler but the reported taps vary in time")
+    H = np.abs(np.asarray(ir.get_freq_response(N))[m["map"]["out"]["idx"], 0])
+    LIB_SKIPPED[1] += 1
+    if H.min() < 1e-3 * H.max():
+        LIB_SKIPPED[0] += 1
+        return
+    eq = np.asarray(OfdmOneTapEqualizer(o).equalize_data(np.asarray(o.demodulate(rx[:len(tx)].copy())), ir))
+    if eq.shape != want.shape or np.abs(eq - want).max() > 1e-7 * max(1.0, np.abs(want).max()):
+        raise Bad("OneTapExact (static library channel, JakesSampleGenerator Fd = 0, raw profile): equalised symbols are not the transmitted symbols")
 
 
 def run_random(o, m, d, rng, known, ledger=None):
@@ -393,8 +462,10 @@ def run_random(o, m, d, rng, known, ledger=None):
         fade = np.zeros(k, dtype=complex)
         fade[0], fade[1] = 1.0, -(1 - 3e-7) * np.exp(2j * np.pi * k0 * (d1 - d0) / N)
         cases.append(("deep non-zero fade |H| = 3e-7 on bin %d" % k0, fade, 1e-6))
+    if ch.get("route", "int") != "int":
+        run_library_channel(o, m, d, ch, tx, want, rng)
     for what, v, tol in cases:
-        chan, _, _ = make_channel(ch["taps"], N + cp, ch["block"], v)
+        chan, _, _ = make_channel(ch["taps"], N + cp, ch["block"], v, ch.get("route", "int"), ch.get("raw", ()))
         rx = call("corrupt_data", chan.corrupt_data, [tx.copy()], d["chan"].get("req", ()), ledger, readonly=True)[:len(tx)].copy()
         dem = call("demodulate", o.demodulate, [rx], d["dem"].get("req", ()), ledger, readonly=True)
         eq = call("equalize_data", OfdmOneTapEqualizer(o).equalize_data, [dem, chan.get_last_impulse_response()],
@@ -458,11 +529,14 @@ def check_history(h):
         acc = st["call"]["out"]["accepted"]
         before = None if o is None else (o.fft_size, o.cp_size, o.num_used_subcarriers)
         T = ptype(st["call"]["out"].get("pt", "int"))     # each configuration call with its own integer scalar type
-        args = [T(v) for v in c[1:]]
+        args = [T(v) for v in (c[1:3] if c[3] == -1 else c[1:])]   # used = -1: the two-argument call form
         try:
             if o is None:
                 o = OFDM(*args)
                 raised = False
+                from pyphysim.modulators.ofdm import OfdmOneTapEqualizer
+                ledger.eqz = OfdmOneTapEqualizer(o)    # ONE equaliser object for the whole history (it must follow set_parameters)
+                ledger.chans = {}
             else:
                 try:
                     o.set_parameters(*args)
@@ -527,8 +601,8 @@ def check_star(e):
     if e["step"] == "scalecase":
         return check_scalecase(e)
     try:
-        o = OFDM(N, cp, u)
-        ok = (o.fft_size, o.cp_size, o.num_used_subcarriers) == (N, cp, u)
+        o = OFDM(N, cp) if u == -1 else OFDM(N, cp, u)       # u = -1: the two-argument form, used defaults to fft
+        ok = (o.fft_size, o.cp_size, o.num_used_subcarriers) == (N, cp, N if u == -1 else u)
     except ValueError:
         ok = False
     if ok != e["out"]["valid"]:
@@ -615,6 +689,7 @@ def partition(job):
     """runs in a worker process: returns a picklable summary"""
     kw = dict(job["model"])
     SHAPE_OBS.clear()
+    LIB_SKIPPED[0] = LIB_SKIPPED[1] = 0
     cfg, defs = model(**kw)
     r = _tlc_cached(cfg, defs, job.get("timeout", 1700))
     res = {"label": job["label"], "generated": r.generated, "distinct": r.distinct, "depth": r.depth,
@@ -663,6 +738,7 @@ def partition(job):
                              "demanded_parameters_after_each_call": [st["call"]["out"]["want"] for st in h["steps"]],
                              "frame_laws_per_call": [st["call"]["req"] for st in h["steps"]]}
     res["shape_obs"] = dict(SHAPE_OBS)
+    res["lib"] = list(LIB_SKIPPED)
     # chains whose parameters are passed as a PENDING (unsigned) type: counted, not judged (see PENDING_PTYPES)
     pend = [v for v in res["viol"] if "mod" in v[2] and v[2]["mod"]["input"].get("pt") in PENDING_PTYPES]
     if pend:
@@ -724,7 +800,9 @@ def plan(tier, seed):
             jobs.append({"label": f"{label}/{i}", "w": weight * sum(costfn(c) for c in p),
                          "model": dict(configs=p, seed=seed, **kw)})
     pow2 = configs_of([2, 4, 8])
-    np2 = (configs_of([6]) + configs_of([12], cps=lambda N: [0, 1, 5, 12], us=lambda N: [2, 6, 10, 12])
+    # odd fft sizes (used < fft always, fft // 2 rounding, cp = fft odd) go through full chains too
+    odd = [(3, 1, 2), (3, 3, 2), (5, 2, 4), (7, 7, 6), (9, 4, 8)]
+    np2 = (odd + configs_of([6]) + configs_of([12], cps=lambda N: [0, 1, 5, 12], us=lambda N: [2, 6, 10, 12])
            + configs_of([60], cps=lambda N: [0, 7, 60], us=lambda N: [2, 52, 60]))
     # sizes at which fft^2 leaves the 16 / 32-bit range, parameters in every (judged) type wide enough for the sizes
     big = [(182, 10, 100), (256, 64, 200), (46342, 2, 4), (65536, 0, 2)]
@@ -744,11 +822,18 @@ def plan(tier, seed):
                                                              laymode="one", block=(tier != "quick"))})
     if tier == "quick":
         # every length and the complete unit basis of the data, loopback (the product with the tap basis is in the thorough tier)
-        add("data-sweep", pow2, 5, 2.0, lenmode="all", patmode="basis", ndense=1, laymode="none", block=False)
+        add("data-sweep", pow2, 4, 2.0, lenmode="all", patmode="basis", ndense=1, laymode="none", block=False)
         # the complete unit basis of the taps (+ the three layouts), static and block-static, two lengths
-        add("tap-sweep", pow2, 4, 1.0, cost_basis, lenmode="two", patmode="dense", ndense=1, laymode="basis", block=True)
+        add("tap-sweep", pow2, 3, 1.0, cost_basis, lenmode="two", patmode="dense", ndense=1, laymode="basis", block=True)
         add("non-pow2", np2, 1, 1e6, lenmode="two", patmode="dense", ndense=1, laymode="three", block=True)
         # ONE live object: every history of 3 calls over 5 valid + 4 invalid parameter sets, full chain after every call
+        # raw (quarter-sample) profiles with Ts # 1 through the three construction routes + a static library generator
+        jobs.append({"label": "profiles", "w": 4e10, "model": dict(
+            configs=[(8, 3, 6), (8, 8, 8), (4, 2, 4), (16, 5, 10), (6, 3, 4), (12, 5, 10), (5, 2, 4)], routes=ROUTES, seed=seed,
+            lenmode="isi", patmode="dense", ndense=1, laymode="three")})
+        # five OFDM symbols per call (block-static rotation i^s has period 4)
+        jobs.append({"label": "long", "w": 3e10, "model": dict(configs=configs_of([2, 4]), seed=seed, lenmode="long",
+                                                                patmode="dense", ndense=1, laymode="one", block=True)})
         jobs.append({"label": "history", "w": 1e11, "model": dict(histvalid=HIST_VALID, histbad=HIST_BAD, histmax=3, usemax=1, seed=seed,
                                                                    lenmode="isi", patmode="dense", ndense=1, laymode="one")})
         # repeated modulate ... equalize chains on one object: every sequence of 3 uses over the lengths {u-1, u+1, 2u}
@@ -772,6 +857,9 @@ def plan(tier, seed):
         np2t = np2 + configs_of([12]) + configs_of([10, 15, 24], cps=lambda N: [0, 1, N // 2, N],
                                                     us=lambda N: [2, N // 2 // 2 * 2, N - N % 2])
         add("non-pow2", sorted(set(np2t)), 3, 1e3, lenmode="three", patmode="dense", ndense=2, laymode="three", block=True)
+        add("profiles", configs_of([4, 8]) + [(16, 5, 10), (6, 3, 4), (12, 5, 10), (5, 2, 4), (7, 7, 6)], 4, 1e3, lenmode="two",
+            patmode="dense", ndense=1, laymode="three", routes=ROUTES, block=True)
+        add("long", configs_of([2, 4, 8]), 2, 1e3, lenmode="long", patmode="dense", ndense=1, laymode="three", block=True)
         # ONE live object: every pair of calls over all 49 configurations of fft <= 8 (+ 8 rejected parameter sets), and every
         # history of 4 calls over the quick alphabet; full chain after every call
         bad8 = HIST_BAD + [(4, 1, 5), (8, 0, 10), (4, -1, 2), (2, 0, 1)]
@@ -835,6 +923,10 @@ def run(ctx):
         ctx.notes["layouts_not_equalised"] = ctx.notes.get("layouts_not_equalised", 0) + res["excluded"]
         if "pending" in res:
             ctx.notes["pending_unsigned_parameter_cases"] = {"mismatches": res["pending"], "example": res["pending_example"]}
+        if res.get("lib", [0, 0])[1]:
+            lib = ctx.notes.setdefault("static_library_channel_runs", {"run": 0, "skipped_ill_conditioned": 0})
+            lib["run"] += res["lib"][1]
+            lib["skipped_ill_conditioned"] += res["lib"][0]
         ctx.notes["histories_replayed"] = ctx.notes.get("histories_replayed", 0) + res.get("histories", 0)
         for k, v in res.get("shape_obs", {}).items():   # observation, not a verdict: the call changed the SHAPE of its argument
             obs = ctx.notes.setdefault("calls_that_reshaped_their_argument", {})
